@@ -70,3 +70,53 @@ contract("C12.add_context_and_filter", file="hed/errors/error_reporter.py", func
              "C12.decorate.errors_only_when_asked": "implies(not self._check_for_warnings, all_in(issues, lambda x: x.severity <= 1))",
          },
          loops={0: {"invariant": ["all_in(issues, lambda x: issue_wf(x))"]}})
+
+# C12 "points at the offending text": the REAL sub-tag wrapper of @hed_tag_error (the function format_error dispatches to for every rule
+# that names a fragment of a tag) hands the message function the fragment tag.tag[index_in_tag:index_in_tag_end] of the text AS WRITTEN -
+# the same text the indices are relative to - and stores exactly those indices and the tag in the issue.
+from pyvc.contract import EXTERNS as _EX
+
+
+def _create_error_object(interp, args, kwargs):
+    """ErrorHandler._create_error_object(code, message, severity, **kw): the issue dict {'code','message','severity'} + kw (trusted model
+    of a three-line function; dict keys appear as fields / has_<key> views of the Issue model)"""
+    obj = interp.new_object("Issue")
+    W = interp.field_write
+    W(obj, "code", args[0])
+    W(obj, "message", args[1])
+    W(obj, "severity", args[2])
+    for f in ("has_source_tag", "has_index_in_tag", "has_index_in_tag_end", "has_char_index", "has_char_index_end", "has_msg_char_index"):
+        W(obj, f, False)
+    for k, v in kwargs.items():
+        if k == "**":
+            continue
+        W(obj, k, v)
+        W(obj, "has_" + k, True)
+    return obj
+
+
+_EX["ErrorHandler._create_error_object"] = _create_error_object
+END = "(len(tag.tag) if index_in_tag_end is None else index_in_tag_end)"
+contract("C12.sub_tag_wrapper", file="hed/errors/error_reporter.py", func="hed_tag_error.inner_decorator.wrapper#0",
+         params={"tag": "HedTag", "index_in_tag": "Int", "index_in_tag_end": "Opt[Int]", "args": "Opaque", "severity": "Int", "kwargs": "Opaque"},
+         returns="Issue", enc="native", also=["C01"],
+         ghost={"free": {"func": "Recorder", "actual_code": "Str", "default_severity": "Int"}, "init": {"calls_func": "0"}, "no_frame": True},
+         requires=["0 <= index_in_tag", "index_in_tag <= " + END, END + " <= len(tag.tag)"],
+         ensures={
+             "C12.subtag.message_quotes_the_fragment_the_indices_select": "calls_func == 1 and called_func[1] == tag.tag[index_in_tag:" + END + "]",
+             "C12.subtag.message_names_the_tag_as_written": "called_func[0] == tag.org_tag",
+             "C12.subtag.issue_carries_indices_and_tag": "result.has_index_in_tag and result.index_in_tag == index_in_tag and result.has_index_in_tag_end"
+                                                         " and result.index_in_tag_end == " + END + " and result.has_source_tag and result.source_tag is tag",
+             "C12.subtag.published_code_and_severity": "result.code == actual_code and result.severity == severity",
+         },
+         assume=["_create_error_object modelled (issue dict as Issue object); the message function is an unknown callable whose arguments are recorded"])
+
+contract("C12.whole_tag_wrapper", file="hed/errors/error_reporter.py", func="hed_tag_error.inner_decorator.wrapper#1",
+         params={"tag": "HedTag", "args": "Opaque", "severity": "Int", "kwargs": "Opaque"}, returns="Issue", enc="native", also=["C01"],
+         ghost={"free": {"func": "Recorder", "actual_code": "Str", "default_severity": "Int"}, "init": {"calls_func": "0"}, "no_frame": True},
+         ensures={
+             "C12.tag.message_names_the_tag_as_written": "calls_func == 1 and called_func[0] == tag.org_tag",
+             "C12.tag.issue_carries_the_tag": "result.has_source_tag and result.source_tag is tag and not result.has_index_in_tag",
+             "C12.tag.published_code_and_severity": "result.code == actual_code and result.severity == severity",
+         },
+         assume=["only the HedTag form of the first argument is covered (groups and plain values are exercised by the bounded workload)"])
